@@ -213,7 +213,6 @@ structure WF (c : Cfg) : Prop where
   err_le : c.maxError ≤ c.off
   cap_eq : c.cap = (c.tlen + (c.off + c.maxError) - 1) / c.off + 1
   rule : c.rule = { retireSubMaxError := true, flushFromLastTick := true }
-  compl : c.complement = false
 
 theorem WF.cap_pos {c : Cfg} (w : WF c) : 0 < c.cap := by rw [w.cap_eq]; exact Nat.succ_pos _
 
